@@ -248,3 +248,33 @@ func init() {
 		}
 	}})
 }
+
+func init() {
+	register(&Property{ID: "X-reentrant", NeedSSA: true, Decided: "dump", NotDecided: "-", Run: func(c *Ctx) {
+		runReentrantRule(c, "X.reentrant", func(fn *ssa.Function) bool { return inModule(fn) }, nil, 1)
+	}})
+}
+
+func init() {
+	register(&Property{ID: "X-appendalias", NeedSSA: true, Decided: "dump", NotDecided: "-", Run: func(c *Ctx) {
+		runAppendAliasRule(c, "X.appendalias", func(fn *ssa.Function) bool { return inModule(fn) }, 1)
+	}})
+}
+
+func init() {
+	register(&Property{ID: "X-result", NeedSSA: true, Decided: "dump", NotDecided: "-", Run: func(c *Ctx) {
+		runCodecResultRule(c, "X.result", 1)
+	}})
+}
+
+func init() {
+	register(&Property{ID: "X-wrapper", NeedSSA: true, Decided: "dump", NotDecided: "-", Run: func(c *Ctx) {
+		wrapperPreservedRule(c, "X.wrapper", "Page", "Slice", 1)
+	}})
+}
+
+func init() {
+	register(&Property{ID: "X-closed", NeedSSA: true, Decided: "dump", NotDecided: "-", Run: func(c *Ctx) {
+		runClosedFieldRule(c, "X.closed", nil, 1)
+	}})
+}
